@@ -71,6 +71,8 @@ pub trait Property: Sync {
     /// how often a case is re-executed before "does not fail" is believed (> 1 for cases whose execution the harness does not
     /// fully control: workloads on a multi-thread tokio runtime)
     fn attempts(&self, _case: &Self::Case) -> u32 { 1 }
+    /// structure-aware decoding of one fuzzer input into a case of this part's generator domain (parts without one: the input seeds the generator)
+    fn decode(&self, _u: &mut arbitrary::Unstructured<'_>) -> Option<Self::Case> { None }
     /// cases enumerated exhaustively before the random search (bounded-exhaustive parts)
     fn exhaustive(&self, _tier: Tier) -> Option<Box<dyn Iterator<Item = Self::Case> + '_>> { None }
 }
@@ -412,6 +414,29 @@ pub fn replay_part<P: Property>(prop: &P, file: &ReplayFile) -> Result<RunReport
         rep = prop.run_guarded(&case);
     }
     Ok(rep)
+}
+
+/// One libFuzzer input -> one case. Parts with a structure-aware decoder (`Property::decode`, hand-written over `arbitrary::Unstructured`,
+/// mirroring the part's proptest generator) map input bytes to case fields directly, so coverage-guided mutation of the input mutates the case
+/// locally; for the other parts the input is hashed into the seed of the part's own generator (every input still decodes into a case of the
+/// generator's domain, but mutation is then only a source of fresh seeds).
+pub fn fuzz_part<P: Property>(prop: &P, data: &[u8]) -> Option<(RunReport, Value)> {
+    use proptest::strategy::ValueTree;
+    use proptest::test_runner::{RngAlgorithm, TestRng};
+    let mut u = arbitrary::Unstructured::new(data);
+    let case = match prop.decode(&mut u) {
+        Some(c) => c,
+        None => {
+            let mut seed = [0u8; 32];
+            let mut x = data.iter().fold(0xcbf29ce484222325u64, |h, b| (h ^ *b as u64).wrapping_mul(0x100000001b3)) | 1;
+            for chunk in seed.chunks_mut(8) { x ^= x << 13; x ^= x >> 7; x ^= x << 17; chunk.copy_from_slice(&x.wrapping_mul(0x2545F4914F6CDD1D).to_le_bytes()); }
+            let rng = TestRng::from_seed(RngAlgorithm::ChaCha, &seed);
+            let mut runner = TestRunner::new_with_rng(Config { failure_persistence: None, ..Config::default() }, rng);
+            prop.strategy(Tier::Quick).new_tree(&mut runner).ok()?.current()
+        },
+    };
+    let rep = prop.run_guarded(&case);
+    Some((rep, serde_json::to_value(&case).unwrap_or(Value::Null)))
 }
 
 pub struct PropertyResult {
